@@ -62,18 +62,21 @@ Lemma close_spec : forall D fuel w cw h,
   hoare (fun h1 => h1 = h) (close fixed fuel w)
         (fun _ h' => hinv D h' /\ wkeeps h h' /\ shrinks h h' /\
                      (w <> root -> unqueued h' w) /\
-                     exists cw', findw h' w = Some cw' /\ w_parent cw' = None /\ w_first cw' = w_first cw /\
-                                 w_closed cw' = true).
+                     (exists cw', findw h' w = Some cw' /\ w_parent cw' = None /\ w_first cw' = w_first cw /\
+                                 w_closed cw' = true /\ w_ref cw' = w_ref cw) /\
+                     (forall a c, a <> w -> findw h a = Some c ->
+                        exists c', findw h' a = Some c' /\ w_parent c' = w_parent c /\ w_ref c' = w_ref c)).
 Proof.
   intros D fuel w cw h HI Hw h1 E. subst h1. unfold close. cbn [v_close_nopurge fixed].
   unfold bind at 1. rewrite (getw_run h w cw Hw).
   (* the last step, common to both branches *)
   assert (Hlast : forall h2 cw2, hinv D h2 -> findw h2 w = Some cw2 -> w_parent cw2 = None ->
             let h3 := upd_cell h2 w (fun c => set_closed c true) in
-            hinv D h3 /\ keeps h2 h3 /\ findw h3 w = Some (set_closed cw2 true)).
+            hinv D h3 /\ keeps h2 h3 /\ findw h3 w = Some (set_closed cw2 true) /\
+            (forall a, a <> w -> findw h3 a = findw h2 a)).
   { intros h2 cw2 HI2 Hw2 Hp2 h3.
     assert (CB : cells_by h2 h3 (on w (fun c => set_closed c true))) by apply cells_by_on.
-    split; [|split].
+    split; [|split; [|split]].
     - apply (hinv_cells_by D h2 h3 _ HI2 CB).
       + intros a c Hf. unfold on. destruct (Pos.eqb w a) eqn:Ea; cbn.
         * apply Pos.eqb_eq in Ea. subst a. rewrite Hw2 in Hf. inversion Hf; subst c.
@@ -92,7 +95,8 @@ Proof.
         * unfold on. destruct (Pos.eqb w x); cbn; auto.
         * eapply cells_by_anc; eauto. intros a c Ha Hfa _. unfold on. destruct (Pos.eqb w a); reflexivity.
     - eapply cells_by_keeps; eauto. intros a c Hf. unfold on. destruct (Pos.eqb w a); cbn; auto.
-    - unfold h3. rewrite findw_upd_cell_same. rewrite Hw2. reflexivity. }
+    - unfold h3. rewrite findw_upd_cell_same. rewrite Hw2. reflexivity.
+    - intros a Ha. unfold h3. apply findw_upd_cell_other. congruence. }
   destruct (w_parent cw) as [p|] eqn:Hwp.
   - (* attached: purge, then remove *)
     unfold bind at 1. unfold bind at 1.
@@ -104,9 +108,11 @@ Proof.
     assert (Hw' : findw h1 w = Some cw) by (rewrite Fw1; exact Hw).
     pose proof (do_remove_spec D fuel p w cw h1 HI1 Hw' Hwp Hu1 h1 eq_refl) as Hrm.
     destruct (do_change fuel ChRemove p w h1) as [u2 h2| |]; [|contradiction|exact I].
-    destruct Hrm as [HI2 [K2 [cw2 [Hw2 [Hp2 [Hn2 [Hf2 [Hc2 Hfo2]]]]]]]].
+    destruct Hrm as [HI2 [K2 [[cw2 [Hw2 [Hp2 [Hn2 [Hf2 [Hc2 Hfo2]]]]]] Hex2]]].
     rewrite (upd_run h2 w _ cw2 Hw2).
-    destruct (Hlast h2 cw2 HI2 Hw2 Hp2) as [HI3 [K3 Hw3]].
+    destruct (Hlast h2 cw2 HI2 Hw2 Hp2) as [HI3 [K3 [Hw3 Hoth3]]].
+    assert (Hrw2 : w_ref cw2 = w_ref cw).
+    { destruct (kp_wins h1 h2 K2 w cw Hw') as [c2' [Hf2' [_ [Hr2' _]]]]. rewrite Hw2 in Hf2'. inversion Hf2'; subst c2'. exact Hr2'. }
     set (h3 := upd_cell h2 w (fun c => set_closed c true)) in *.
     assert (WK : wkeeps h h3).
     { eapply wkeeps_trans; [apply same_wins_wkeeps; exact Hw1|].
@@ -114,18 +120,20 @@ Proof.
     assert (SH : shrinks h h3).
     { apply wkeeps_shrinks; auto. intros q cq Hq.
       rewrite (kp_reqs h2 h3 K3) in Hq. rewrite (kp_reqs h1 h2 K2) in Hq. auto. }
-    split; [exact HI3|]. split; [exact WK|]. split; [exact SH|]. split.
+    split; [exact HI3|]. split; [exact WK|]. split; [exact SH|]. split; [|split].
     + intros _. eapply unqueued_shrinks; [|exact Hu1].
       eapply shrinks_trans; apply keeps_shrinks; eauto.
     + exists (set_closed cw2 true). repeat split; auto.
+    + intros a c Ha Hfa. rewrite (Hoth3 a Ha). apply Hex2; auto. rewrite Fw1. exact Hfa.
   - (* already detached *)
     unfold bind at 1. cbn [ret]. rewrite (upd_run h w _ cw Hw).
-    destruct (Hlast h cw HI Hw Hwp) as [HI3 [K3 Hw3]].
+    destruct (Hlast h cw HI Hw Hwp) as [HI3 [K3 [Hw3 Hoth3]]].
     set (h3 := upd_cell h w (fun c => set_closed c true)) in *.
-    split; [exact HI3|]. split; [apply keeps_wkeeps; exact K3|]. split; [apply keeps_shrinks; exact K3|]. split.
+    split; [exact HI3|]. split; [apply keeps_wkeeps; exact K3|]. split; [apply keeps_shrinks; exact K3|]. split; [|split].
     + intros Hnr. eapply unqueued_shrinks; [apply keeps_shrinks; exact K3|].
       eapply unqueued_off_tree; eauto. eapply anc_refl; eauto.
     + exists (set_closed cw true). repeat split; auto.
+    + intros a c Ha Hfa. rewrite (Hoth3 a Ha). eauto.
 Qed.
 
 (* ---- the root's queue is released ------------------------------------------------------------------- *)
@@ -465,7 +473,7 @@ Proof.
       intro Hnr. eapply unqueued_off_tree; eauto. eapply anc_refl; eauto.
     - pose proof (close_spec (w :: D) f w cw h1 HI1 Hw1 h1 eq_refl) as Hc.
       destruct (close fixed f w h1) as [u h2| |]; [|contradiction|exact I].
-      destruct Hc as [HI2 [WK2 [SH2 [Hu2 [cw2 [Hw2 [Hp2 _]]]]]]].
+      destruct Hc as [HI2 [WK2 [SH2 [Hu2 [[cw2 [Hw2 [Hp2 _]]] _]]]]].
       split; [exact HI2|]. split; [exact WK2|]. split; [exact SH2|]. split; [exact Hu2|]. exists cw2. auto. }
   unfold bind at 1.
   destruct ((if w_closed cw then ret tt else close fixed f w) h1) as [u2 h2| |]; [|contradiction|exact I].
